@@ -93,6 +93,18 @@ SEEDS = {
     "C10i": ("C10", "_do_segmentation starts from the caller's array instead of a copy", "an HMM method with the outlier filter off (0), skip_low off and no zero-weight bin: the caller's bins gain a probes column", "missed", "C10's segment step now draws the outlier filter (10 / 3 / off), min_weight and the hmm / hmm-tumor methods"),
     "C12i": ("C12", "by_shared_chroms single-chromosome shortcut fires when the other table merely contains that chromosome", "an access table listing exactly one chromosome and baits on further contigs", "caught", None),
     "C14i": ("C14", "do_call stops applying the post-call filters once fewer than two segments are left", "a table of exactly one segment (or one that cn/ci/sem collapse to one row) with cn 1..4 and the ampdel filter", "caught", None),
+    "C01j": ("C01", "absolute_pure computes per chromosome block and writes consecutive slices", "clonal call without purity (or purity 1) on a table whose chromosomes are not contiguous blocks (rows interleaved / shuffled)", "missed", "C01 and C02 now hand the rows over interleaved, reversed, shuffled or with stacked tail rows on half of the cases (gen.row_order; not with the cn filter, which presupposes genomic order)"),
+    "C02j": ("C02", "absolute_threshold looks the reference copies up once per chromosome block", "threshold call on a table whose chromosomes are not contiguous blocks and that mixes autosomes with haploid sex chromosomes", "missed", "see C01j"),
+    "C05j": ("C05", "do_reference tests `if not female_samples` instead of `is None`", "sexes given as male and a sample that guess_xx calls female", "caught", None),
+    "C09j": ("C09", "pileup chunks collected with as_completed and concatenated in lexicographic file-name order", "pileup with > 1 process and >= 11 chunks", "caught", None),
+    "C11j": ("C11", "by_arm emits arms in genome order (sorted groupby) while callers attach per-arm results by position", "hmm-germline on a table whose chromosome blocks are not in genome order", "missed", "C11 now reverses or rotates the chromosome blocks on a third of the multi-chromosome cases"),
+    "C13j": ("C13", "by_shared_chroms single-chromosome shortcut with .any() instead of .all()", "regions on exactly one sequence and an exclude file naming further sequences", "caught", None),
+    "C15j": ("C15", "center_all(by_chrom) cuts the table wherever the chromosome name changes between consecutive rows", "a table whose rows are not grouped by chromosome (stacked panels, shuffled rows)", "missed", "C15's centring cases now use gen.row_order"),
+    "C16j": ("C16", "group_by_genes weight-averages the depth only when all weights are non-zero", "a reported gene with some (not all) bin weights exactly 0", "missed", "C16 now plants exact zero weights inside genes (never a whole group)"),
+    "C17j": ("C17", "on_array's trivial-case shortcut extended to constant arrays (mse of constant non-zero deviations becomes 0)", "mse requested and a segment whose bins share one log2 value different from the segment's", "caught", None),
+    "C18j": ("C18", "load_het_snps drops tumour-only records only when some but not all records are tumour-only", "a paired VCF in which every record surviving the filters is tumour non-reference / normal reference", "missed", "C18 now asserts that a tumour-only record is never returned (outside the genotype-less-normal workaround)"),
+    "C19j": ("C19", "_width2wing no longer clamps the wing to len(x) - 1", "a signal of exactly 2 values", "caught", None),
+    "C20j": ("C20", "export_seg collects the samples in a dict keyed by sample ID", "two input files with the same sample ID", "caught", None),
 }
 
 
